@@ -272,7 +272,7 @@ func (f *fn) fieldSet(sc structCfg, x, field, val string) string {
 		v := fmt.Sprintf("f%d__", i)
 		if name == field {
 			pats = append(pats, "_")
-			args = append(args, val)
+			args = append(args, "("+val+")")
 		} else {
 			pats = append(pats, v)
 			args = append(args, v)
@@ -576,13 +576,27 @@ func (f *fn) selfRef() string {
 	return "(" + f.leanFn + " " + strings.Join(append(append([]string{}, f.t.ExtraArgs...), "fuel__"), " ") + ")"
 }
 
-func (f *fn) selfType() string {
+// paramVars: the receiver (when it is a translated struct) and the parameters that are kept
+func (f *fn) paramVars() []*types.Var {
 	sig := f.info.Defs[f.decl.Name].(*types.Func).Type().(*types.Signature)
-	var ts []string
+	var vs []*types.Var
+	if f.decl.Recv != nil && len(f.decl.Recv.List[0].Names) == 1 {
+		if rv, ok := f.info.Defs[f.decl.Recv.List[0].Names[0]].(*types.Var); ok && !f.dropped(rv) {
+			vs = append(vs, rv)
+		}
+	}
 	for i := 0; i < sig.Params().Len(); i++ {
 		if !f.dropped(sig.Params().At(i)) {
-			ts = append(ts, f.leanType(sig.Params().At(i).Type()))
+			vs = append(vs, sig.Params().At(i))
 		}
+	}
+	return vs
+}
+
+func (f *fn) selfType() string {
+	var ts []string
+	for _, v := range f.paramVars() {
+		ts = append(ts, f.leanType(v.Type()))
 	}
 	return strings.Join(append(ts, "M "+f.resTy), " → ")
 }
@@ -661,6 +675,9 @@ func (f *fn) call(x *ast.CallExpr, pre *[]string) string {
 	case "strings.Join":
 		a := f.args(x, pre)
 		return "(Go.strJoin " + a[0] + " " + a[1] + ")"
+	case "bytes.Fields":
+		a := f.args(x, pre)
+		return "(Go.bytesFields " + a[0] + ")"
 	case "strings.Split":
 		a := f.args(x, pre)
 		return "(Go.strSplit " + a[0] + " " + a[1] + ")"
@@ -694,6 +711,9 @@ func (f *fn) call(x *ast.CallExpr, pre *[]string) string {
 	}
 	if fo != nil && f.t.Recursive && fo == f.info.Defs[f.decl.Name] {
 		a := f.args(x, pre)
+		if fo.Type().(*types.Signature).Recv() != nil {
+			a = append([]string{f.expr(x.Fun.(*ast.SelectorExpr).X, pre)}, a...)
+		}
 		tmp := f.tmp()
 		*pre = append(*pre, "let "+tmp+" : "+f.resTy+" ← "+f.selfRef()+" "+strings.Join(a, " "))
 		return tmp
@@ -1005,6 +1025,9 @@ func (f *fn) dropped(v *types.Var) bool {
 		}
 	}
 	if f.decl.Recv != nil && len(f.decl.Recv.List[0].Names) == 1 && f.info.Defs[f.decl.Recv.List[0].Names[0]] == v {
+		if _, _, ok := f.structOf(v.Type()); ok {
+			return false // a receiver of a translated struct type is an ordinary parameter
+		}
 		return true
 	}
 	return false
@@ -1361,7 +1384,8 @@ func (f *fn) errPropagation(x *ast.AssignStmt, rest []ast.Stmt, k konts, out *[]
 	}
 	name, fo := f.callee(call)
 	isSelf := fo != nil && f.t.Recursive && fo == f.info.Defs[f.decl.Name]
-	if t, ok := f.all[name]; !(isSelf && f.t.ErrorResult) && !(ok && t.ErrorResult) {
+	_, isAbstract := f.t.Abstract[f.text(call)] // an effect of the outside world (reading a file): a parameter of type Option
+	if t, ok := f.all[name]; !isAbstract && !(isSelf && f.t.ErrorResult) && !(ok && t.ErrorResult) {
 		return nil, false
 	}
 	errId, ok := x.Lhs[1].(*ast.Ident)
@@ -1715,6 +1739,17 @@ func (f *fn) rangeLoop(x *ast.RangeStmt, rest []ast.Stmt, k konts) ([]string, bo
 	var elemTy, list string
 	isMap := false
 	if call, ok := x.X.(*ast.CallExpr); ok {
+		if n, _ := f.callee(call); n == "bytes.Lines" {
+			// the lines of the data, each with its terminator
+			if x.Value != nil {
+				bad("two variables ranging over bytes.Lines")
+			}
+			elemTy, list = "Str", "(Go.bytesLines "+f.expr(call.Args[0], &pre)+")"
+			xt = types.NewSlice(types.NewSlice(types.Typ[types.Uint8]))
+			x = &ast.RangeStmt{For: x.For, Key: nil, Value: x.Key, Tok: x.Tok, X: x.X, Body: x.Body}
+		}
+	}
+	if call, ok := x.X.(*ast.CallExpr); ok {
 		if n, _ := f.callee(call); n == "slices.Backward" {
 			// last element first; the index variable is not supported
 			if id, ok := x.Key.(*ast.Ident); x.Key != nil && (!ok || id.Name != "_") {
@@ -1991,11 +2026,7 @@ func (f *fn) translate() string {
 	}
 	var binders []string
 	binders = append(binders, f.t.ExtraParams...)
-	for i := 0; i < sig.Params().Len(); i++ {
-		v := sig.Params().At(i)
-		if f.dropped(v) {
-			continue
-		}
+	for _, v := range f.paramVars() {
 		binders = append(binders, f.binder(v))
 	}
 	var head []string
@@ -2056,11 +2087,7 @@ func (f *fn) translate() string {
 	if f.t.Recursive {
 		// general recursion: fuel first; running out of it is Err.fuel
 		var tys, names []string
-		for i := 0; i < sig.Params().Len(); i++ {
-			v := sig.Params().At(i)
-			if f.dropped(v) {
-				continue
-			}
+		for _, v := range f.paramVars() {
 			tys = append(tys, f.leanType(v.Type()))
 			names = append(names, f.nameOf(v))
 		}
